@@ -622,4 +622,41 @@ outside the model and is what the two-exporter end-to-end scenarios observe) -/
 def constructAll (parse : Parse) (cs : List Construction) : List Cfg :=
   cs.map (fun c => newConfig c.exp parse c.env c.opts)
 
+/-! ### from the resolved configuration to the client that runs with it
+
+`NewClient` (otlptracehttp), `newClient` (otlpmetrichttp), `newHTTPClient` (otlploghttp) build
+`http.Client{Transport: ourTransport, Timeout: cfg.Timeout}` and replace the transport by a customised clone of
+`ourTransport` when a TLS configuration (option or certificate variables) or a proxy function is set (otlploghttp:
+always — its default proxy setting is non-nil); the three gRPC `newClient`s copy `cfg.Timeout` into `exportTimeout`
+whatever the dial options / supplied connection. -/
+
+/-- the construction path: what else is configured besides the five settings of the statement -/
+structure Build where
+  /-- a TLS configuration is set (WithTLSClientConfig / WithTLSCredentials / certificate variables) -/
+  tls : Bool
+  /-- WithProxy (HTTP) -/
+  proxy : Bool
+  /-- WithGRPCConn (gRPC) -/
+  suppliedConn : Bool
+deriving DecidableEq, Repr
+
+structure ClientM where
+  /-- HTTP: the package-level transport itself (not a clone); gRPC: the exporter dials its own connection -/
+  own : Bool
+  /-- the timeout the client really runs with: `http.Client.Timeout` (per request) / `exportTimeout` (per export) -/
+  timeout : Int
+deriving DecidableEq, Repr
+
+/-- the constructors of the six client packages, branch by branch -/
+def newClientM (exp : Exp) (b : Build) (c : Cfg) : ClientM :=
+  if exp.isHttp then
+    let hc : ClientM := { own := true, timeout := c.timeout }
+    if b.tls || b.proxy || exp.isLog then { hc with own := false }   -- httpClient.Transport = ourTransport.Clone()
+    else hc
+  else { own := !b.suppliedConn, timeout := c.timeout }
+
+/-- the timeout exporter `exp` really applies, given all its sources and its construction path -/
+def effectiveTimeout (exp : Exp) (parse : Parse) (e : OtlpEnv) (opts : List UOpt) (b : Build) : Int :=
+  (newClientM exp b (newConfig exp parse e opts)).timeout
+
 end Otel.C20
